@@ -7,6 +7,7 @@ turn" = the instant the turn begins, DESIGN.md 6.8).
 -/
 import Wheatley.Lemmas.Outs
 import Wheatley.Lemmas.Cli
+import Wheatley.Lemmas.Handlers
 namespace Wheatley.C08
 
 /-- **Whose bell**: the ownership test is exactly "unassigned and no name configured, or assigned to
@@ -155,5 +156,22 @@ example :
 theorem cli_name (c : Parse.Chars) (os : List Cli.Opt) (u : Option (List Char × List Char)) (cfg : Cli.Cfg)
     (h : Cli.consoleMain c os u = .built cfg) : cfg.name = (Cli.namesGiven os).getLast? :=
   (Cli.main_built c os u cfg h).2.2.2.2.2.2.2.2.1
+
+/-! ### Who strikes -/
+
+/-- **Only the main thread strikes.**  Whatever arrives from the server - any message, in any state, also the
+second half of a Look To handler that was asleep - the handler that runs on the socket thread emits no
+`c_bell_rung`, and it does not move the main thread.  So every strike of Wheatley's is the strike of a turn
+(`strike_law`, `at_most_one_strike`), however assignments change and ringers come and go meanwhile. -/
+theorem only_the_main_thread_strikes {K : Type} [Num K] (wt : K → K) (w : World K) (e : Ev) :
+    (World.deliver wt w e).pc = w.pc ∧ ringsOf (World.deliver wt w e).obs = ringsOf w.obs :=
+  deliver_never_rings wt w e
+
+/-- … and the same for a whole sleep of the main thread, however many messages fall due in it. -/
+theorem no_strike_while_asleep {K : Type} [Num K] (wt : K → K) (endTime : K) (w : World K) (d : K)
+    (events : List (K × Ev)) :
+    (World.sleep wt endTime w d events).1.pc = w.pc ∧
+    ringsOf (World.sleep wt endTime w d events).1.obs = ringsOf w.obs :=
+  sleep_never_rings wt endTime w d events
 
 end Wheatley.C08
